@@ -20,6 +20,8 @@ type GenOpts struct {
 	Small        bool // fewer / smaller definitions (faster labs)
 	RedactRate   int  // when > 0, one field in RedactRate carries go.redact and one in 2*RedactRate go.nolog (C15 labs)
 	MoreServices bool // more services and functions per file (C19)
+	UniqueNames  bool // never define the same type name in two files
+	TypedefArgs  bool // every file gets typedefs of every shape and function signatures prefer them (C19)
 	Hostile      bool // draw identifiers and file names from the hostile pool (Go keywords, initialisms, generated-method names, std package names)
 	BackEdges    bool // cyclic includes: later files include earlier ones and typedef their types (compile-only properties)
 	// Avoid lists defect classes the generator must not produce (known,
@@ -65,6 +67,11 @@ type gctx struct {
 	consts []*Def
 
 	usedTypeNames map[string]bool
+	namesByFile   map[string]map[string]bool
+	allTypeNames  []string
+	sigTypedefs   []*Def   // typedefs function signatures should prefer (TypedefArgs)
+	structOnlyOK  bool     // the field list under construction belongs to a struct or union
+	enumItemNames []string // Go constant names of generated enum items (hostile collisions)
 }
 
 func (g *gctx) label(s string) string { g.n++; return fmt.Sprintf("%s%d", s, g.n) }
@@ -109,11 +116,15 @@ func GenProgram(t *rapid.T, o *GenOpts) *Program {
 	var files []*File
 	for i := 0; i < nf; i++ {
 		stem := pickStr(g, fileStems, "fstem")
-		for used[stem] {
+		dir := pickStr(g, dirs, "fdir")
+		// the same base name may live in different directories (two files including both is
+		// impossible: the include names would clash, see the include selection below)
+		for used[dir+stem] || (used["stem:"+stem] && (g.o.UniqueNames || !g.chance(1, 2, "samebase"))) {
 			stem += "x"
 		}
-		used[stem] = true
-		files = append(files, &File{Path: pickStr(g, dirs, "fdir") + stem + ".thrift"})
+		used[dir+stem] = true
+		used["stem:"+stem] = true
+		files = append(files, &File{Path: dir + stem + ".thrift"})
 	}
 	g.p.Files = files
 	// build from the leaves: file i may include files j > i
@@ -122,8 +133,13 @@ func GenProgram(t *rapid.T, o *GenOpts) *Program {
 		f := files[i]
 		g.file = f
 		g.pool = nil
+		incNames := map[string]bool{IncludeName(f.Path): true}
 		for j := i + 1; j < nf; j++ {
 			if j == i+1 || g.chance(1, 2, "inc") {
+				if incNames[IncludeName(files[j].Path)] {
+					continue // two includes visible under one name are not valid Thrift
+				}
+				incNames[IncludeName(files[j].Path)] = true
 				f.Includes = append(f.Includes, files[j].Path)
 				g.pool = append(g.pool, defsOf[files[j].Path]...)
 			}
@@ -137,6 +153,15 @@ func GenProgram(t *rapid.T, o *GenOpts) *Program {
 			j := g.intn(1, nf-1, "backfrom")
 			i := g.intn(0, j-1, "backto")
 			from, to := files[j], files[i]
+			clash := IncludeName(to.Path) == IncludeName(from.Path)
+			for _, inc := range from.Includes {
+				if inc != to.Path && IncludeName(inc) == IncludeName(to.Path) {
+					clash = true
+				}
+			}
+			if clash {
+				continue
+			}
 			if !includes(from, to.Path) {
 				from.Includes = append(from.Includes, to.Path)
 			}
@@ -157,7 +182,34 @@ func GenProgram(t *rapid.T, o *GenOpts) *Program {
 }
 
 func (g *gctx) newTypeName() string {
+	name := g.newTypeName1()
+	if g.namesByFile == nil {
+		g.namesByFile = map[string]map[string]bool{}
+	}
+	if g.namesByFile[g.file.Path] == nil {
+		g.namesByFile[g.file.Path] = map[string]bool{}
+	}
+	// the same name may be defined in several files (they are different Go packages):
+	// reuse a name another file already defines
+	if !g.o.UniqueNames && len(g.allTypeNames) > 0 && g.chance(1, 4, "tname_reuse") {
+		cand := g.allTypeNames[g.intn(0, len(g.allTypeNames)-1, "tname_reuse_i")]
+		if !g.namesByFile[g.file.Path][cand] {
+			name = cand
+		}
+	}
+	if !g.namesByFile[g.file.Path][name] {
+		g.namesByFile[g.file.Path][name] = true
+		g.allTypeNames = append(g.allTypeNames, name)
+	}
+	return name
+}
+
+func (g *gctx) newTypeName1() string {
 	g.n++
+	if g.o.Hostile && len(g.enumItemNames) > 0 && g.chance(1, 6, "tname_enumitem") {
+		// a type named like the Go constant of an enum item (Shape + CIRCLE => ShapeCircle)
+		return g.enumItemNames[g.intn(0, len(g.enumItemNames)-1, "tname_enumitem_i")]
+	}
 	if g.o.Hostile && g.chance(1, 2, "tname_h") {
 		name := hostileTypes[g.intn(0, len(hostileTypes)-1, "tname_hi")]
 		if g.usedTypeNames == nil {
@@ -247,6 +299,35 @@ func (g *gctx) genFile(f *File) {
 			}
 		}
 	}
+	if g.o.TypedefArgs {
+		// typedefs of every shape, so that function signatures can name them
+		var st, en *Def
+		for _, d := range g.pool {
+			if d.File == f.Path && d.Kind == DStruct && st == nil {
+				st = d
+			}
+			if d.File == f.Path && d.Kind == DEnum && en == nil {
+				en = d
+			}
+		}
+		shapes := []*Type{{K: TBinary}, {K: TString}, {K: TBool}, {K: TI64}, {K: TDouble},
+			{K: TList, Elem: &Type{K: TI32}}, {K: TSet, Elem: &Type{K: TString}}, {K: TSet, Elem: &Type{K: TBinary}},
+			{K: TMap, Key: &Type{K: TString}, Val: &Type{K: TI64}}, {K: TMap, Key: &Type{K: TBinary}, Val: &Type{K: TList, Elem: &Type{K: TString}}}}
+		if st != nil {
+			shapes = append(shapes, &Type{K: TRef, Ref: &Ref{File: f.Path, Name: st.Name}},
+				&Type{K: TMap, Key: &Type{K: TRef, Ref: &Ref{File: f.Path, Name: st.Name}}, Val: &Type{K: TI32}})
+		}
+		if en != nil {
+			shapes = append(shapes, &Type{K: TRef, Ref: &Ref{File: f.Path, Name: en.Name}})
+		}
+		for _, sh := range shapes {
+			if g.chance(2, 3, "tdshape") {
+				td := &Def{Kind: DTypedef, Name: g.newTypeName(), Target: sh}
+				add(td)
+				g.sigTypedefs = append(g.sigTypedefs, td)
+			}
+		}
+	}
 	if g.o.Services {
 		lo, hi2 := 0, 2
 		if g.o.MoreServices {
@@ -312,6 +393,7 @@ func (g *gctx) genEnum() *Def {
 			}
 		}
 		usedVals[it.Value] = true
+		g.enumItemNames = append(g.enumItemNames, d.Name+GoConstName(it.Name))
 		next = it.Value + 1
 		if next > math.MaxInt32 {
 			d.Items = append(d.Items, it)
@@ -371,9 +453,15 @@ func (g *gctx) genTypedef() *Def {
 	return d
 }
 
+// structOnlyStems are legal in structs and unions but reserved in exceptions (Error, ErrorName methods).
+var structOnlyStems = []string{"error_name", "error", "errorName", "error_code"}
+
 func (g *gctx) fieldName(used map[string]bool) string {
 	for {
 		name := pickStr(g, fieldStems, "fname")
+		if g.structOnlyOK && !g.o.Hostile && g.chance(1, 10, "fname_structonly") {
+			name = structOnlyStems[g.intn(0, len(structOnlyStems)-1, "fname_so")]
+		}
 		if g.chance(1, 3, "fsuffix") {
 			name = fmt.Sprintf("%s%d", name, g.intn(2, 9, "fsuf"))
 		}
@@ -417,6 +505,8 @@ func (g *gctx) genStruct() *Def {
 		kind = DException
 	}
 	d := &Def{Kind: kind, Name: g.newTypeName()}
+	g.structOnlyOK = kind != DException
+	defer func() { g.structOnlyOK = false }()
 	n := g.intn(0, 6, "nfields")
 	if kind == DUnion && n == 0 {
 		n = 1
@@ -749,6 +839,23 @@ func (g *gctx) genConstDef() *Def {
 	return d
 }
 
+// sigType draws a type for a parameter / return value.
+func (g *gctx) sigType() *Type {
+	if g.o.TypedefArgs && g.chance(1, 2, "sig_td") {
+		var vis []*Def
+		for _, td := range g.sigTypedefs {
+			if td.File == g.file.Path || includes(g.file, td.File) {
+				vis = append(vis, td)
+			}
+		}
+		if len(vis) > 0 {
+			td := vis[g.intn(0, len(vis)-1, "sig_tdi")]
+			return &Type{K: TRef, Ref: &Ref{File: td.File, Name: td.Name}}
+		}
+	}
+	return g.genType(2, true)
+}
+
 func (g *gctx) genService() *Def {
 	g.n++
 	d := &Def{Kind: DService, Name: fmt.Sprintf("Svc%s%d", typeStems[g.n%len(typeStems)], g.n)}
@@ -774,7 +881,7 @@ func (g *gctx) genService() *Def {
 		usedNames := map[string]bool{}
 		usedIDs := map[int]bool{}
 		for j, na := 0, g.intn(0, 3, "nargs"); j < na; j++ {
-			a := &Field{ID: g.genFieldID(usedIDs), Name: g.fieldName(usedNames), Type: g.genType(2, true)}
+			a := &Field{ID: g.genFieldID(usedIDs), Name: g.fieldName(usedNames), Type: g.sigType()}
 			switch g.intn(0, 3, "areq") {
 			case 0:
 				a.Req = "required"
@@ -790,7 +897,7 @@ func (g *gctx) genService() *Def {
 			fn.OneWay = true
 		} else {
 			if g.chance(2, 3, "hasret") {
-				fn.Ret = g.genType(2, true)
+				fn.Ret = g.sigType()
 			}
 			var excs []*Def
 			for _, e := range g.pool {
